@@ -126,15 +126,19 @@ def shape_of(v):
 # sequences
 
 class SymRange:
-    def __init__(self, lo, hi):
-        self.lo, self.hi = lo, hi
+    def __init__(self, lo, hi, step=1):
+        self.lo, self.hi, self.step = lo, hi, step
+        if not (isinstance(step, int) and step >= 1):
+            raise Unsupported("range() with a symbolic or non-positive step")
 
     def length(self):
         lo, hi = lift(self.lo), lift(self.hi)
-        return Sym(z3.If(hi > lo, hi - lo, z3.IntVal(0)))
+        if self.step == 1:
+            return Sym(z3.If(hi > lo, hi - lo, z3.IntVal(0)))
+        return Sym(z3.If(hi > lo, (hi - lo + (self.step - 1)) / self.step, z3.IntVal(0)))     # ceil((hi-lo)/step), integer division
 
     def at(self, j):
-        return Sym(lift(self.lo) + lift(j))
+        return Sym(lift(self.lo) + self.step * lift(j))
 
     elem_shape = SInt
 
